@@ -293,6 +293,45 @@ fn shim_ok_records<'s>(mapping: &ProguardMapping<'s>) -> (r: std::iter::Peekable
     ensures pk_rest(r) == ok_records(*mapping),
 { unimplemented!() /* body in /repo: mapping.iter().filter_map(Result::ok).peekable() */ }
 """, "glue")
+        u.raw("""
+// ---- C02, last clause: line-based answers do not depend on whether the parameter index was requested ----
+// (the readers answer line-based queries from `all` and the class fields only: u2)
+pub open spec fn same_lines<'s>(a: AClass<'s>, b: AClass<'s>) -> bool {
+    a.original == b.original && a.obfuscated == b.obfuscated && a.file_name == b.file_name
+    && (forall|k: &'s str| a.members.contains_key(k) == b.members.contains_key(k))
+    && (forall|k: &'s str| #[trigger] a.members.contains_key(k) ==> a.members[k].all == b.members[k].all)
+}
+pub open spec fn same_lines_map<'s>(x: Map<&'s str, AClass<'s>>, y: Map<&'s str, AClass<'s>>) -> bool {
+    (forall|k: &'s str| x.contains_key(k) == y.contains_key(k)) && (forall|k: &'s str| #[trigger] x.contains_key(k) ==> same_lines(x[k], y[k]))
+}
+pub proof fn lemma_flag_independent_run<'s>(recs: Seq<ProguardRecord<'s>>, n: int)
+    requires 0 <= n <= recs.len(),
+    ensures same_lines(run(recs, true, n).cur, run(recs, false, n).cur), same_lines_map(run(recs, true, n).done, run(recs, false, n).done),
+    decreases n
+{
+    if n > 0 {
+        lemma_flag_independent_run(recs, n - 1);
+        let a = run(recs, true, n - 1); let b = run(recs, false, n - 1);
+        match recs[n - 1] {
+            ProguardRecord::Method { ty, original, obfuscated, arguments, original_class, line_mapping } => {
+                let a1 = method_step(a.cur, a.seen, true, line_mapping, obfuscated, original, original_class, arguments, next_of(recs, n));
+                let b1 = method_step(b.cur, b.seen, false, line_mapping, obfuscated, original, original_class, arguments, next_of(recs, n));
+                assert(members_of(a.cur, obfuscated).all == members_of(b.cur, obfuscated).all);
+                assert forall|k: &'s str| a1.members.contains_key(k) == b1.members.contains_key(k) by {}
+                assert forall|k: &'s str| #[trigger] a1.members.contains_key(k) implies a1.members[k].all == b1.members[k].all by {
+                    if k != obfuscated { assert(a.cur.members.contains_key(k)); }
+                }
+            },
+            _ => {},
+        }
+    }
+}
+pub proof fn lemma_line_answers_do_not_depend_on_the_parameter_index<'s>(recs: Seq<ProguardRecord<'s>>)
+    ensures /*@L:line_based_content_is_the_same_with_and_without_parameter_index:C02*/ same_lines_map(built(recs, true), built(recs, false)),
+{
+    lemma_flag_independent_run(recs, recs.len() as int);
+}
+""", "flag independence lemma")
         IMPL = r"impl<'s> ProguardMapper<'s>"
         u.raw(mp.impl_header(IMPL) + "{\n", "glue")
         wf = mp.impl_fn(IMPL, "create_proguard_mapper")
